@@ -563,6 +563,7 @@ func main() {
 	for _, r := range registries {
 		analyse(a, r)
 	}
+	publishFacts(a)
 }
 
 // structs and package-level variables of the resolution-path packages that carry a mutex
